@@ -216,9 +216,11 @@ func (root *Root) regField(obj *Object, fd *FieldDef, goField string, args ...st
 		meta = meta.Elem()
 	}
 	if meta.Kind() == reflect.Struct {
+		// An unexported field can not be read by reflection, a method of the
+		// same name may still answer.
 		if field, ok := meta.FieldByNameFunc(func(name string) bool {
 			return strings.EqualFold(name, goField)
-		}); ok {
+		}); ok && field.PkgPath == "" {
 			fd.goField = field.Name
 			if 0 < len(args) {
 				err = fmt.Errorf("%w: field %s on %s does not have argument", ErrMeta, goField, meta)
